@@ -84,7 +84,7 @@ def run(ck, F, tier):
     # ---- insert ----------------------------------------------------------------------
     b, t, _ = trace(F, "insert", ("self", "row", "col"))
     ev = [e for e in t.events if e.callee.rsplit("::", 1)[-1] in MUTATING_VEC]
-    guard = (app("not", app(SM + "contains", var("self"), R, Cc)), True)
+    guard = (app(SM + "contains", var("self"), R, Cc), False)     # path conditions store !c as (c, False); guard clauses read alike
     want = {("push", repr(idx(ROWS, R)), repr(Cc)), ("push", repr(idx(COLS, Cc)), repr(R))}
     got = {(e.callee.rsplit("::", 1)[-1], repr(e.args[0]), repr(e.args[1]) if len(e.args) > 1 else "") for e in ev}
     ck.inst("X1", "insert", got == want and all(e.guards == [guard] for e in ev) and len(ev) == 2, b.span,
@@ -235,13 +235,11 @@ def run(ck, F, tier):
         ck.inst("X3", fn, v == ("iterdesc", ("elems", idx(lst, var(nm)))), b.span, "%s(i) iterates %r" % (fn, v))
     b, v = ev_fn("iter_all", ("self",))
     ok = False
-    a = single_atom(v) if isinstance(v, Poly) else None
-    if a and atom_fn(a) == "std::iter::Iterator::flat_map":
-        src, clo = a[2], a[3]
-        cl = [c for c in walk(b.value) if c.get("k") == "closure"]
-        if repr(src) == repr(vkey(("iterdesc", ("enumerate", ("elems", ROWS))))) and len(cl) >= 1:
+    if isinstance(v, tuple) and v and v[0] == "iterdesc" and v[1][0] == "flat_map" and len(v[1]) == 3:
+        src, clo = v[1][1], v[1][2]
+        if src == ("enumerate", ("elems", ROWS)):
             tr = Tracer(F, "NONE", mode="int")
-            r = tr.apply(("closure", cl[0], {}), [("tuple", [var("j"), var("r")])])
+            r = tr.apply(clo, [("tuple", [var("j"), var("r")])])
             if isinstance(r, tuple) and r[0] == "iterdesc" and r[1][0] == "map" and r[1][1] == ("elems", var("r")):
                 ok = tr.apply(r[1][2], [var("k")]) == ("tuple", [var("j"), var("k")])
     ck.inst("X3", "iter_all", ok, b.span, "iter_all() = rows.iter().enumerate().flat_map(|(j, r)| r.iter().map(|&k| (j, k)))")
